@@ -166,18 +166,22 @@ theorem J_step0 (t : Spec.St) (a : ASt) (op : Op) (hJ : J t a) (hA : Adm0 a op) 
   | bind l =>
     by_cases hl : l < a.nLabels
     · obtain ⟨n, h1, h2, h3⟩ := fr.lab l hl
+      have hnc : (t.f.nodes.getD n (.comment "?")).isCpool = false := by
+        have h3' := h3; simp only [nodeAt] at h3'; rw [h3']; rfl
+      have hnc' : (t.f.nodes[n]?.getD (.comment "?")).isCpool = false := by
+        simpa [List.getD_eq_getElem?_getD] using hnc
       have hv : t.f.labelValid l = true := by simp [Front.labelValid, fr.nLabels, hl]
       by_cases hb : l ∈ a.bound
       · have hact : t.d.has n = true := by
           simp only [Doc.has, List.contains_iff_mem]; exact (fr.bound l n hl h1).mpr hb
         have e : astep a (.bind l) = a := by simp [astep, hl, hb]
         have h1' : t.f.labelNodes[l]?.getD none = some n := by simpa [List.getD_eq_getElem?_getD] using h1
-        rw [e]; simpa [front, hv, h1, h1', hact] using hJ
+        rw [e]; simpa [front, hv, h1, h1', hact, hnc, hnc'] using hJ
       · have hnot : n ∉ t.d.items := fun h => hb ((fr.bound l n hl h1).mp h)
         have hact : t.d.has n = false := by simp [Doc.has, hnot]
         have ea : astep a (.bind l) = { (a.emit (.bind l)) with bound := l :: a.bound } := by simp [astep, hl, hb]
         rw [ea]
-        simp only [front, hv, h1, hact, Bool.not_true, Bool.false_eq_true, if_false, List.foldl_cons, List.foldl_nil]
+        simp only [front, hv, h1, hact, hnc, Bool.not_true, Bool.false_eq_true, if_false, List.foldl_cons, List.foldl_nil]
         rw [doc_add_end _ _ hnot hJ.gap]
         refine ⟨⟨fr.regSize, fr.nLabels, fr.nSections, fr.opts, fr.extra, fr.cmt, ?_, fr.lab, ?_, ?_⟩, by simp, ?_, hJ.sec⟩
         · intro m hm
@@ -299,6 +303,7 @@ theorem J_step0 (t : Spec.St) (a : ASt) (op : Op) (hJ : J t a) (hA : Adm0 a op) 
       have e : astep a (.section s) = a := by simp [astep, hs]
       rw [e]; simpa [front, hge] using hJ
   | cpool l isz bytes => exact absurd hA (by simp [Adm0])
+  | gconst z b => exact absurd hA (by simp [Adm0, isEdit])
   | cursor n => exact absurd hA (by simp [Adm0, isEdit])
   | remove n => exact absurd hA (by simp [Adm0, isEdit])
   | removerange x y => exact absurd hA (by simp [Adm0, isEdit])
